@@ -60,6 +60,9 @@ pub struct Meta {
     pub variants: Vec<VariantMeta>,
     pub has_clone: bool,
     pub has_serde: bool,
+    /// the returning conversion forms are driven (false when the generated interface of the
+    /// module does not offer the removed data the definition says it returns)
+    pub has_returning_forms: bool,
     /// size / align of `RecordUninitialized<CAP>`
     pub uninit_size_of: usize,
     pub uninit_align_of: usize,
@@ -96,11 +99,57 @@ pub fn skipped() -> FieldObs {
     }
 }
 
-pub const NSLOTS: usize = 9;
+pub const NSLOTS: usize = 11;
 /// Placement of each slot.
 pub const SLOT_KIND: [&str; NSLOTS] = [
-    "stack", "stack", "box", "box", "vec", "vec", "vec", "repr_c_slot", "repr_c_slot",
+    "stack", "stack", "box", "box", "vec", "vec", "vec", "repr_c_slot", "repr_c_slot", "minimally_aligned_heap", "minimally_aligned_heap",
 ];
+
+/// A heap placement that is aligned for `T` and for nothing more: the address is an odd multiple
+/// of `align_of::<T>()`. A record type whose alignment is smaller than one of its fields'
+/// alignment shows there as a misaligned field reference.
+pub struct MinAligned<T> {
+    base: *mut u8,
+    layout: std::alloc::Layout,
+    ptr: *mut T,
+}
+
+impl<T> MinAligned<T> {
+    pub fn new(value: T) -> Self {
+        let align = std::mem::align_of::<T>();
+        let size = std::mem::size_of::<T>();
+        let big = (align * 2).max(64);
+        let layout = std::alloc::Layout::from_size_align(size + 2 * big, big).unwrap();
+        let base = unsafe { std::alloc::alloc(layout) };
+        assert!(!base.is_null());
+        // base is a multiple of 2 * align: base + align is an odd multiple of align
+        let ptr = unsafe { base.add(align) } as *mut T;
+        unsafe { std::ptr::write(ptr, value) };
+        MinAligned { base, layout, ptr }
+    }
+}
+
+impl<T> std::ops::Deref for MinAligned<T> {
+    type Target = T;
+    fn deref(&self) -> &T {
+        unsafe { &*self.ptr }
+    }
+}
+
+impl<T> std::ops::DerefMut for MinAligned<T> {
+    fn deref_mut(&mut self) -> &mut T {
+        unsafe { &mut *self.ptr }
+    }
+}
+
+impl<T> Drop for MinAligned<T> {
+    fn drop(&mut self) {
+        unsafe {
+            std::ptr::drop_in_place(self.ptr);
+            std::alloc::dealloc(self.base, self.layout);
+        }
+    }
+}
 
 #[derive(Clone, Debug)]
 pub enum Op {
